@@ -125,7 +125,12 @@ impl ElementRaw {
                                             );
                                         }
                                     }
-                                    model_locked.reference_origins.insert(refpath_new, reflist);
+                                    // references that already use the new path (dangling until now) must be kept
+                                    model_locked
+                                        .reference_origins
+                                        .entry(refpath_new)
+                                        .or_default()
+                                        .extend(reflist);
                                 }
                             }
                         }
@@ -840,7 +845,12 @@ impl ElementRaw {
                             ref_element.0.write().set_character_data(refstr.clone(), version)?;
                         }
                     }
-                    model_locked.reference_origins.insert(refstr, ref_elements);
+                    // references that already use the new path (dangling until now) must be kept
+                    model_locked
+                        .reference_origins
+                        .entry(refstr)
+                        .or_default()
+                        .extend(ref_elements);
                 }
             }
         }
